@@ -15,18 +15,22 @@
         (ExchangeContext)            t.idleConns` loop incl. `exitIdle`), recvRes
                                      (`case r := <-resChan`, retry decision), giveUp
                                      (`case <-ctx.Done()` in asyncDial / exchangeConnCtx)
-      dial goroutine of e            dialDone (DialContext returns; newReusableConn;
-        (asyncDial's go func)        exitIdle; t.m{closed? conns[rc]}), dialDeliver
-                                     (the final select: hand rc to the caller, or
-                                     `releaseConn(rc, nil)` when the caller is gone),
+      dial goroutine of e            dialDone (DialContext returns; newReusableConn),
+        (asyncDial's go func)        dialExit (rc.exitIdle(); t.m{closed? conns[rc]}),
+                                     dialDeliver (the final select: hand rc to the caller,
+                                     or `releaseConn(rc, nil)` when the caller is gone),
                                      dialFail (same select with rc == nil)
       worker of one attempt          workerWrite (SetDeadline + Write), workerReadOk /
         (exchangeConnCtx's go func)  workerReadErr (ReadMsgFromTCP), workerPost
                                      (`resChan <- res`), workerRelA (`rc.close()` or
                                      `rc.enterIdle()`), workerRelB (t.m{closed? delete /
                                      idleConns[rc] = ...})
-      idle timer of connection c     idleTimer (`closeIfIdle`; may fire at any moment —
-                                     a superset of the real timer's behaviour)
+      idle timer of connection c     idleTimer (`closeIfIdle`; may fire at any moment — a
+                                     superset of the real timer's behaviour — except, and
+                                     this is assumption A1, between `newReusableConn` and
+                                     the dial goroutine's `rc.exitIdle()`, two adjacent
+                                     calls; `stepCoreG true` drops A1, see
+                                     `C06.early_timer_panics`)
       Close                          tClose
       ctx of exchange e              cancel
       upstream server                srvReply (one reply per query, in order; `good =
@@ -46,6 +50,7 @@
 -/
 import MosVerif.Util
 -- @component reuse MosVerif.Reuse.run
+-- @component reusestress MosVerif.Reuse.runStress
 namespace MosVerif.Reuse
 
 /-- function update -/
@@ -60,6 +65,8 @@ inductive Res where
 
 /-- The goroutine that currently owns a connection, and where it is. -/
 inductive Worker where
+  /-- dial goroutine of exchange `e` between `newReusableConn` and `rc.exitIdle()` -/
+  | fresh (e : Nat)
   /-- dial goroutine of exchange `e` between `t.conns[rc] = …` and its final `select` -/
   | hold (e : Nat)
   /-- worker of attempt `att` of exchange `e` before / in `c.c.Write` -/
@@ -88,10 +95,12 @@ structure Conn where
   pending : List Nat
   /-- replies already sent by the server (`true`: decodes), answering `pending` in order -/
   avail : List Bool
+  /-- the reader has consumed a proper part of the reply to the oldest pending query -/
+  halfRead : Bool
   worker : Option Worker
   deriving Repr
 
-def Conn.fresh : Conn := ⟨false, false, false, false, [], [], none⟩
+def Conn.fresh : Conn := ⟨false, false, false, false, [], [], false, none⟩
 
 inductive CPhase where
   | fresh
@@ -190,9 +199,11 @@ inductive Act where
   | recvRes (e : Nat)
   | giveUp (e : Nat)
   | dialDone (e : Nat) (ok : Bool)
+  | dialExit (c : Nat)
   | dialDeliver (c : Nat) (toCaller : Bool)
   | dialFail (e : Nat) (toCaller : Bool)
   | workerWrite (c : Nat) (fail : Bool)
+  | workerReadPart (c : Nat)
   | workerReadOk (c : Nat)
   | workerReadErr (c : Nat)
   | workerPost (c : Nat)
@@ -231,8 +242,14 @@ def spawn (s : State) (e c : Nat) (new : Bool) : State :=
 
 end State
 
-/-- One atomic step (of a transport that has not panicked). -/
-def stepCore (s : State) (a : Act) : State :=
+/-- the dial goroutine has created the connection and not yet called `rc.exitIdle()` -/
+def beforeExitIdle : Option Worker → Bool
+  | some (.fresh _) => true
+  | _ => false
+
+/-- One atomic step (of a transport that has not panicked). `racy = true` drops assumption A1
+    (the idle timer of a connection cannot fire before the dial goroutine's `exitIdle`). -/
+def stepCoreG (racy : Bool) (s : State) (a : Act) : State :=
   match a with
   | .start e =>
     match (s.caller e).phase with
@@ -289,13 +306,23 @@ def stepCore (s : State) (a : Act) : State :=
       if ok then
         let c := s.nconn
         let s := ({ s with nconn := c + 1 }).emit (.dial c)
-        -- newReusableConn; rc.exitIdle()
-        let s := s.setConn c { Conn.fresh with serving := true }
-        if s.tclosed then (s.rcClose c).setCaller e { k with dial := .failed }
-        else
-          (({ s with all := s.all ++ [c] }).setConn c { s.conn c with worker := some (.hold e) }).setCaller e
-            { k with dial := .gone }
+        -- newReusableConn: not serving, idle timer armed
+        (s.setConn c { Conn.fresh with worker := some (.fresh e) }).setCaller e { k with dial := .gone }
       else s.setCaller e { k with dial := .failed }
+    | _ => s
+  | .dialExit c =>
+    let k := s.conn c
+    match k.worker with
+    | some (.fresh e) =>
+      -- rc.exitIdle(); its result is ignored
+      if !k.closed && k.serving then { s with fault := some .exitIdleBusy }
+      else
+        let s := if k.closed then s else s.setConn c { k with serving := true }
+        -- t.m.Lock(); if t.closed { rc.close(); rc = nil; err = ErrClosedTransport } else { t.conns[rc] = … }
+        if s.tclosed then
+          ((s.rcClose c).setConn c { (s.rcClose c).conn c with worker := none }).setCaller e
+            { s.caller e with dial := .failed }
+        else ({ s with all := s.all ++ [c] }).setConn c { s.conn c with worker := some (.hold e) }
     | _ => s
   | .dialDeliver c toCaller =>
     match (s.conn c).worker with
@@ -320,6 +347,13 @@ def stepCore (s : State) (a : Act) : State :=
       else
         (s.setConn c { k with pending := k.pending ++ [e], worker := some (.read e a) }).emit (.wr c e)
     | _ => s
+  | .workerReadPart c =>
+    -- a Read inside io.ReadFull returns a proper part of the reply
+    let k := s.conn c
+    match k.worker with
+    | some (.read _ _) =>
+      if k.netClosed || k.pending.isEmpty then s else s.setConn c { k with halfRead := true }
+    | _ => s
   | .workerReadOk c =>
     let k := s.conn c
     match k.worker with
@@ -328,9 +362,11 @@ def stepCore (s : State) (a : Act) : State :=
       match k.pending, k.avail with
       | q :: ps, g :: gs =>
         if g then
-          (s.setConn c { k with pending := ps, avail := gs, worker := some (.post e a (.ok q)) }).emit (.rd c q)
+          (s.setConn c { k with pending := ps, avail := gs, halfRead := false,
+                                worker := some (.post e a (.ok q)) }).emit (.rd c q)
         else
-          (s.setConn c { k with pending := ps, avail := gs, worker := some (.post e a .err) }).emit (.bad c q)
+          (s.setConn c { k with pending := ps, avail := gs, halfRead := false,
+                                worker := some (.post e a .err) }).emit (.bad c q)
       | _, _ => s
     | _ => s
   | .workerReadErr c =>
@@ -370,7 +406,8 @@ def stepCore (s : State) (a : Act) : State :=
     -- closeIfIdle
     if c < s.nconn then
       let k := s.conn c
-      if !k.serving then (s.setConn c { k with closed := true }).netClose c else s
+      if beforeExitIdle k.worker && !racy then s          -- assumption A1
+      else if !k.serving then (s.setConn c { k with closed := true }).netClose c else s
     else s
   | .tClose =>
     if s.tclosed then s
@@ -386,11 +423,19 @@ def stepCore (s : State) (a : Act) : State :=
   | .srvAbort c =>
     if c < s.nconn then s.setConn c { s.conn c with peerClosed := true } else s
 
+def stepCore (s : State) (a : Act) : State := stepCoreG false s a
+
 /-- One atomic step; after a panic nothing moves any more. -/
 def step (s : State) (a : Act) : State :=
   if s.fault.isSome then s else stepCore s a
 
 def exec (s : State) (acts : List Act) : State := acts.foldl step s
+
+/-- the same without assumption A1 -/
+def stepRacy (s : State) (a : Act) : State :=
+  if s.fault.isSome then s else stepCoreG true s a
+
+def execRacy (s : State) (acts : List Act) : State := acts.foldl stepRacy s
 
 /-! ### the specification: a monitor over the observable history
 
@@ -464,7 +509,7 @@ inductive Op where
   | start (e : Nat) | startCancelled (e : Nat) | cancel (e : Nat)
   | dialOk (e : Nat) | dialErr (e : Nat)
   | write (e : Nat)
-  | reply (e : Nat) | replyBad (e : Nat) | replyPartialAbort (e : Nat)
+  | reply (e : Nat) | replySplit (e : Nat) | replyBad (e : Nat) | replyPartialAbort (e : Nat)
   | abort (e : Nat) | abortIdle
   | tick | close
   deriving Repr
@@ -516,6 +561,9 @@ def nextInternal (s : State) (nex : Nat) (picks : List Nat) : Option Act :=
   | some a => some a
   | none =>
   -- 3. dial goroutines holding a connection
+  match findConn s (fun k => match k.worker with | some (.fresh _) => true | _ => false) s.nconn 0 with
+  | some c => some (.dialExit c)
+  | none =>
   match findConn s (fun k => match k.worker with | some (.hold _) => true | _ => false) s.nconn 0 with
   | some c => some (.dialDeliver c true)
   | none =>
@@ -577,13 +625,17 @@ def opActs (s : State) (nex : Nat) (op : Op) : List Act :=
     match connOfReader s e with
     | some c => [.srvReply c true, .workerReadOk c]
     | none => []
+  | .replySplit e =>
+    match connOfReader s e with
+    | some c => [.workerReadPart c, .srvReply c true, .workerReadOk c]
+    | none => []
   | .replyBad e =>
     match connOfReader s e with
     | some c => [.srvReply c false, .workerReadOk c]
     | none => []
   | .replyPartialAbort e =>
     match connOfReader s e with
-    | some c => [.srvAbort c, .workerReadErr c]
+    | some c => [.workerReadPart c, .srvAbort c, .workerReadErr c]
     | none => []
   | .abort e =>
     match connOfReader s e with
@@ -679,7 +731,7 @@ def opOfStr (t : String) : Option Op :=
       | "df" => some (.dialErr e)
       | "w" => some (.write e)
       | "r" => some (.reply e)
-      | "rs" => some (.reply e)          -- a reply delivered in several segments
+      | "rs" => some (.replySplit e)     -- a reply delivered in several segments
       | "rb" => some (.replyBad e)
       | "rp" => some (.replyPartialAbort e)
       | "x" => some (.abort e)
@@ -687,7 +739,7 @@ def opOfStr (t : String) : Option Op :=
 
 def opExch : Op → Nat
   | .start e | .startCancelled e | .cancel e | .dialOk e | .dialErr e | .write e
-  | .reply e | .replyBad e | .replyPartialAbort e | .abort e => e + 1
+  | .reply e | .replySplit e | .replyBad e | .replyPartialAbort e | .abort e => e + 1
   | _ => 0
 
 /-- index of the first event at which the monitor turns false -/
@@ -718,5 +770,17 @@ def run (case impl : String) : String × String :=
           | some (i, ev) => s!"viol:{i}:{strOfEvent ev}"
           | none => "viol"
     (m, v)
+
+/-- component `reusestress`: histories observed under real (nondeterministic) concurrency.
+    There is no schedule to replay, so the model column only *accepts* (echoes) a history that
+    satisfies `spec`; by `C06.model_meets_spec` every history of the model is accepted. -/
+def runStress (_case impl : String) : String × String :=
+  match histOfStr impl with
+  | none => ("unparsed-history", "unparsed")
+  | some h =>
+    if spec h then (impl, "ok")
+    else match firstBad Mon.init 0 h with
+      | some (i, ev) => ("rejected", s!"viol:{i}:{strOfEvent ev}")
+      | none => ("rejected", "viol")
 
 end MosVerif.Reuse
